@@ -96,6 +96,7 @@ func run(c *engine.Ctx) {
 		classUnits(c, 8)
 	}
 	familyUnits(c)
+	bigUnits(c)
 	seededUnits(c)
 }
 
